@@ -20,7 +20,9 @@ fn weight() -> f64 {
 /// Scale function that records the `n` it is asked about (observes `n_samples`
 /// through the public trait).
 #[derive(Clone, Copy, Debug)]
-pub struct ProbeScale;
+pub struct ProbeScale {
+    pub pad: u8,
+}
 pub static mut PROBE_LAST_N: usize = usize::MAX;
 pub static mut PROBE_CALLS: usize = 0;
 impl ScaleFunction for ProbeScale {
@@ -103,16 +105,28 @@ fn quantile_ends(n: usize) {
 fn quantile_monotone(n: usize) {
     let p = arb_parts(n, false);
     let d = digest(&p);
-    let a = grid16();
-    let b = grid16();
-    asm!(a <= b);
+    // adjacent grid points: monotone on neighbours => monotone on the whole 1/16 grid
+    let ai = any_u8();
+    asm!(ai < 16);
+    let a = ai as f64 / 16.0;
+    let b = (ai + 1) as f64 / 16.0;
     let qa = d.quantile(a);
     let qb = d.quantile(b);
     chk!("quantile_monotone", qa <= qb + EPS);
     chk!("quantile_in_range", p.mn - EPS <= qa && qb <= p.mx + EPS);
-    chk!("quantile_repeatable", d.quantile(a) == qa);
-    cov!("right_tail", b * p.s > p.s - 0.5 * p.w[n - 1] && a < b && p.m[n - 1] < p.mx);
+    cov!("right_tail", b * p.s > p.s - 0.5 * p.w[n - 1] && p.m[n - 1] < p.mx);
     cov!("left_tail", a * p.s < 0.5 * p.w[0] && p.mn < p.m[0]);
+}
+
+fn reads_repeatable(n: usize) {
+    let p = arb_parts(n, false);
+    let d = digest(&p);
+    let q = grid16();
+    let x = half_grid();
+    let (q1, c1) = (d.quantile(q), d.cdf(x));
+    chk!("quantile_repeatable", d.quantile(q) == q1);
+    chk!("cdf_repeatable", d.cdf(x) == c1);
+    chk!("reads_do_not_change_aggregates", d.min() == p.mn && d.max() == p.mx && d.count() == p.s);
 }
 
 fn half_grid() -> f64 {
@@ -124,17 +138,18 @@ fn half_grid() -> f64 {
 fn cdf_shape(n: usize) {
     let p = arb_parts(n, false);
     let d = digest(&p);
-    let a = half_grid();
-    let b = half_grid();
-    asm!(a <= b);
+    // adjacent half-integer grid points
+    let ai = any_i8();
+    asm!(ai >= -18 && ai < 18);
+    let a = ai as f64 / 2.0;
+    let b = (ai + 1) as f64 / 2.0;
     let ca = d.cdf(a);
     let cb = d.cdf(b);
     chk!("cdf_monotone", ca <= cb + EPS);
     chk!("cdf_in_unit_interval", ca >= 0.0 && cb <= 1.0 + EPS);
     chk!("cdf_zero_below_min", !(a < p.mn) || ca == 0.0);
     chk!("cdf_one_from_max", !(b >= p.mx) || cb == 1.0);
-    chk!("cdf_repeatable", d.cdf(a) == ca);
-    cov!("inside", a > p.mn && b < p.mx && a < b);
+    cov!("inside", a > p.mn && b < p.mx);
 }
 
 fn roundtrip(n: usize) {
@@ -157,6 +172,8 @@ harness!(td_quantile_monotone_n3, unwind 5, { quantile_monotone(3) });
 harness!(td_cdf_shape_n1, unwind 5, { cdf_shape(1) });
 harness!(td_cdf_shape_n2, unwind 5, { cdf_shape(2) });
 harness!(td_cdf_shape_n3, unwind 5, { cdf_shape(3) });
+harness!(td_repeatable_n1, unwind 5, { reads_repeatable(1) });
+harness!(td_repeatable_n2, unwind 5, { reads_repeatable(2) });
 harness!(td_roundtrip_n1, unwind 5, { roundtrip(1) });
 harness!(td_roundtrip_n2, unwind 5, { roundtrip(2) });
 harness!(td_roundtrip_n3, unwind 5, { roundtrip(3) });
@@ -228,6 +245,37 @@ fn insert_step(nc: usize, nb: usize) {
     cov!("zero_weight", w == 0.0);
     cov!("new_min", w > 0.0 && x < mn0);
 }
+/// insert_weighted with an ARBITRARY finite weight >= 0 (not only small integers) into the empty digest and into a
+/// one-centroid digest: every positive weight counts, however small.
+fn insert_any_weight(nc: usize) {
+    let p = arb_parts(nc.max(1), false);
+    let mut d = if nc == 0 {
+        TDigest::new(K0::new(2.0), 10)
+    } else {
+        TDigest::verif_from_parts(K0::new(2.0), 10, &[(p.w[0], p.m[0] * p.w[0])], p.mn, p.mx, 1)
+    };
+    let x = small();
+    let w = any_f64();
+    asm!(w >= 0.0 && w.is_finite());
+    let (mn0, mx0) = (d.min(), d.max());
+    let (nc0, nb0) = d.verif_lens();
+    d.insert_weighted(x, w);
+    let (nc1, nb1) = d.verif_lens();
+    if w > 0.0 {
+        chk!("positive_weight_is_recorded", nc1 + nb1 == nc0 + nb0 + 1);
+        chk!("positive_weight_not_empty", !d.is_empty());
+        chk!("positive_weight_updates_min", d.min() == if x < mn0 { x } else { mn0 });
+        chk!("positive_weight_updates_max", d.max() == if x > mx0 { x } else { mx0 });
+        let (bw, bs) = d.verif_backlog(nb1 - 1);
+        chk!("positive_weight_stored_exactly", bw == w && bs == x * w);
+    } else {
+        chk!("zero_weight_changes_nothing", (nc1, nb1) == (nc0, nb0) && d.min() == mn0 && d.max() == mx0);
+    }
+    cov!("tiny_weight", w > 0.0 && w < 1e-300);
+    cov!("huge_weight", w > 1e300);
+}
+harness!(td_insert_any_weight_c0, unwind 5, { insert_any_weight(0) });
+harness!(td_insert_any_weight_c1, unwind 5, { insert_any_weight(1) });
 harness!(td_insert_step_c0b0, unwind 5, { insert_step(0, 0) });
 harness!(td_insert_step_c2b1, unwind 5, { insert_step(2, 1) });
 harness!(td_insert_step_c1b2, unwind 5, { insert_step(1, 2) });
@@ -313,25 +361,23 @@ harness!(td_clear_clone, unwind 5, {
     chk!("clear_reads_like_fresh", d.quantile(0.5).is_nan() && d.cdf(0.0) == 0.0 && d.count() == 0.0);
 });
 
-/// After clear(), the scale function must be asked about a digest of 1 sample when
-/// one value is inserted — i.e. the cleared digest behaves like a fresh one for
-/// every scale function that depends on n (K2, K3).
+/// After clear(), the sample counter that `merge` hands to the scale function (`ScaleFunction::f(q, n)`; K2 and K3
+/// depend on it) must be what a fresh digest has after the same inserts.  Read through the hook: running the merge
+/// itself on a cleared (allocated-but-empty) centroid vector trips Kani pointer-model limitations.
 harness!(td_clear_resets_n_for_scale_fn, unwind 5, {
     let nsamp = any_u8();
     asm!(nsamp >= 1 && nsamp <= 200);
     let (w0, m0) = (weight(), small());
-    let mut d = TDigest::verif_from_parts(ProbeScale, 10, &[(w0, m0 * w0)], m0, m0, nsamp as usize);
-    let mut fresh = TDigest::new(ProbeScale, 10);
+    let mut d = TDigest::verif_from_parts(ProbeScale { pad: 0 }, 10, &[(w0, m0 * w0)], m0, m0, nsamp as usize);
+    let mut fresh = TDigest::new(ProbeScale { pad: 0 }, 10);
     d.clear();
-    let x = small();
+    chk!("cleared_sample_counter_as_fresh", d.verif_n_samples() == fresh.verif_n_samples());
+    let (x, y) = (small(), small());
     fresh.insert(x);
-    unsafe { PROBE_LAST_N = usize::MAX };
-    let _ = fresh.count();
-    let n_fresh = unsafe { PROBE_LAST_N };
+    fresh.insert(y);
     d.insert(x);
-    unsafe { PROBE_LAST_N = usize::MAX };
-    let _ = d.count();
-    let n_cleared = unsafe { PROBE_LAST_N };
-    chk!("fresh_scale_fn_sees_one_sample", n_fresh == 1);
-    chk!("cleared_scale_fn_sees_same_n_as_fresh", n_cleared == n_fresh);
+    d.insert(y);
+    chk!("fresh_counts_two_samples", fresh.verif_n_samples() == 2);
+    chk!("cleared_scale_fn_sees_same_n_as_fresh", d.verif_n_samples() == fresh.verif_n_samples());
+    chk!("cleared_parts_as_fresh_after_inserts", d.verif_lens() == fresh.verif_lens() && d.min() == fresh.min() && d.max() == fresh.max());
 });
